@@ -40,10 +40,12 @@ Qed.
 
 Lemma merge_ok_f1 i a ks : f1_ok (RN i a ks) -> merge_ok 1 a.
 Proof.
-  cbn [f1_ok]. intros [(nm & ->)|[(off & nm & p & po & s & so & l & -> & _)|[(off & nm & p & po & q & qo & fl & s & so & l & -> & _)|[(off & ->)|[(off & -> & _)|[(off & nm & p & po & c & co & d & -> & _ & _)|(off & d & -> & Hc & _)]]]]]];
+  cbn [f1_ok]. intros [(nm & ->)|[(bk & off & nm & p & po & rest & -> & _)|[(off & w & v & -> & _)|[(off & ->)|[(off & -> & _)|[(off & nm & p & po & c & co & d & -> & _ & _)|(off & d & -> & Hc & _)]]]]]];
     try (do 3 eexists; split; [reflexivity|right; reflexivity]).
-  unfold cst_pay, merge_ok. cbn [y_info y_op y_th].
-  destruct (is_constb_cases _ Hc) as [E|[E|[E|[E|[E|[E|E]]]]]]; rewrite E; (do 3 eexists; split; [reflexivity|right; reflexivity]).
+  - destruct bk; (do 3 eexists; split; [reflexivity|right; reflexivity]).
+  - destruct w; (do 3 eexists; split; [reflexivity|right; reflexivity]).
+  - unfold cst_pay, merge_ok. cbn [y_info y_op y_th].
+    destruct (is_constb_cases _ Hc) as [E|[E|[E|[E|[E|[E|E]]]]]]; rewrite E; (do 3 eexists; split; [reflexivity|right; reflexivity]).
 Qed.
 
 Lemma slice_at_n s tbls tbl data a b c : p_tables s = tbls -> nth_error tbls (N.to_nat tbl) = Some data -> data = a ++ b ++ c ->
@@ -173,7 +175,7 @@ Proof.
 Qed.
 
 Lemma lay2_item_single h' tbl' b off it : exists a ks, lay2_item h' tbl' b off it = [RN b a ks].
-Proof. destruct it as [d|k seg body|k seg fl body]; [cbn [lay2_item]|rewrite lay2_dev|rewrite lay2_meth]; eauto. Qed.
+Proof. destruct it as [d|bk k seg fa body]; [cbn [lay2_item]|rewrite lay2_blk]; eauto. Qed.
 
 Lemma MInv_ext g pl KT KT' M M' b b' off off' ts :
   KT = KT' -> (forall d, M d = M' d) -> b = b' -> off = off' -> MInv g pl KT M b off ts -> MInv g pl KT' M' b' off' ts.
@@ -209,7 +211,7 @@ Proof.
   destruct f as [|f1]; [lia|]. rewrite mergeScope_loop_S.
   assert (Hlb : y_op a <> opFreed).
   { apply rallr_inv in Hoktree. destruct Hoktree as (Hk1 & _). pose proof (merge_ok_f1 _ _ _ Hk1) as Hm. clear -Hk1.
-    cbn [f1_ok] in Hk1. destruct Hk1 as [(nm & ->)|[(? & ? & ? & ? & ? & ? & ? & -> & _)|[(? & ? & ? & ? & ? & ? & ? & ? & ? & ? & -> & _)|[(? & ->)|[(? & -> & _)|[(? & ? & ? & ? & ? & ? & ? & -> & _ & _)|(? & d & -> & Hc & _)]]]]]]; try discriminate.
+    cbn [f1_ok] in Hk1. destruct Hk1 as [(nm & ->)|[(bk0 & ? & ? & ? & ? & ? & -> & _)|[(? & w0 & ? & -> & _)|[(? & ->)|[(? & -> & _)|[(? & ? & ? & ? & ? & ? & ? & -> & _ & _)|(? & d & -> & Hc & _)]]]]]]; try discriminate; try (destruct bk0; discriminate); try (destruct w0; discriminate).
     cbn [cst_pay y_op]. destruct (is_constb_cases _ Hc) as [E|[E|[E|[E|[E|[E|E]]]]]]; rewrite E; discriminate. }
   rewrite (rep_not_Inv _ _ _ _ _ H Pb).
   apply wp_bind. eapply wp_objectAt_rep; [exact H|exact Pb|exact Hlb|].
